@@ -171,7 +171,7 @@ Lemma decode_data_no_panic : forall (b : blob T),
 Proof.
   intros b H. unfold decode_data.
   pose proof (get_data_no_panic 0 (b_enc b)) as Hg.
-  destruct (get_data current 0 (b_enc b)); [|discriminate|congruence].
+  destruct (get_data current 0 (b_enc b)); [|discriminate|congruence|discriminate].
   destruct (b_pay b) as [h|[objs| |]]; try discriminate.
 Qed.
 
@@ -179,7 +179,7 @@ Lemma decode_header_no_panic : forall (b : blob T), decode_header current b <> S
 Proof.
   intros b. unfold decode_header.
   pose proof (get_data_no_panic 0 (b_enc b)) as Hg.
-  destruct (get_data current 0 (b_enc b)); [|discriminate|congruence].
+  destruct (get_data current 0 (b_enc b)); [|discriminate|congruence|discriminate].
   destruct (b_pay b) as [[|[|]]|d]; discriminate.
 Qed.
 
@@ -219,7 +219,7 @@ Proof.
       assert (Hp : (match b_pay b with PData DPanic => false | _ => true end) = true).
       { unfold no_dpanic in Hf. rewrite Hb in Hf. exact Hf. }
       pose proof (decode_data_no_panic b Hp) as Hd.
-      destruct (decode_data current b) as [objs| | |]; try discriminate; [|congruence].
+      destruct (decode_data current b) as [objs| | | |]; try discriminate; [|congruence].
       unfold deliver. cbn [out]. apply IH. exact Hr.
 Qed.
 
@@ -239,10 +239,58 @@ Proof.
       pose proof (decode_data_no_panic b Hp) as Hd.
       pose proof (decode_header_no_panic b) as Hh.
       destruct ty.
-      * destruct (decode_header current b) as [objs| | |]; try discriminate; [|congruence].
+      * destruct (decode_header current b) as [objs| | | |]; try discriminate; [|congruence].
         apply blocks_loop_no_crash. exact Hr.
-      * destruct (decode_data current b) as [objs| | |]; try discriminate; [|congruence].
+      * destruct (decode_data current b) as [objs| | | |]; try discriminate; [|congruence].
         unfold deliver. cbn [out]. apply blocks_loop_no_crash. exact Hr.
+      * cbn [v_first_other_is_data current]. discriminate.
+Qed.
+
+(* ---- no hang: no decoder of the repaired code fails to return, on ANY frame list ---- *)
+Lemma decode_data_no_hang : forall (b : blob T), decode_data current b <> SHang.
+Proof.
+  intros b. unfold decode_data. pose proof (get_data_no_hang 0 (b_enc b)) as Hg.
+  destruct (get_data current 0 (b_enc b)); [|discriminate|discriminate|congruence].
+  destruct (b_pay b) as [h|[objs| |]]; discriminate.
+Qed.
+
+Lemma decode_header_no_hang : forall (b : blob T), decode_header current b <> SHang.
+Proof.
+  intros b. unfold decode_header. pose proof (get_data_no_hang 0 (b_enc b)) as Hg.
+  destruct (get_data current 0 (b_enc b)); [|discriminate|discriminate|congruence].
+  destruct (b_pay b) as [[|[|]]|d]; discriminate.
+Qed.
+
+Lemma of_err_not_hung : forall e, out (@of_err T e) <> Hung.
+Proof. intros [| |]; discriminate. Qed.
+
+Lemma blocks_loop_no_hang : forall fs avail off, out (blocks_loop current fs avail off) <> Hung.
+Proof.
+  induction fs as [|f r IH]; intros avail off.
+  - cbn [blocks_loop]. destruct (read_file_block current None avail) as [e| | |ty b n];
+      try discriminate. apply of_err_not_hung.
+  - cbn [blocks_loop].
+    destruct (read_file_block current (Some f) avail) as [e| | |ty b n]; try discriminate.
+    + apply of_err_not_hung.
+    + destruct ty; try discriminate.
+      pose proof (decode_data_no_hang b) as Hd.
+      destruct (decode_data current b) as [objs| | | |]; try discriminate; [|congruence].
+      unfold deliver. cbn [out]. apply IH.
+Qed.
+
+Theorem scan_never_hangs : forall fs avail, out (scan current fs avail) <> Hung.
+Proof.
+  intros [|f r] avail.
+  - apply (blocks_loop_no_hang [] avail 0).
+  - cbn [scan].
+    destruct (read_file_block current (Some f) avail) as [e| | |ty b n]; try discriminate.
+    + apply of_err_not_hung.
+    + pose proof (decode_data_no_hang b) as Hd. pose proof (decode_header_no_hang b) as Hh.
+      destruct ty.
+      * destruct (decode_header current b) as [objs| | | |]; try discriminate; [|congruence].
+        apply blocks_loop_no_hang.
+      * destruct (decode_data current b) as [objs| | | |]; try discriminate; [|congruence].
+        unfold deliver. cbn [out]. apply blocks_loop_no_hang.
       * cbn [v_first_other_is_data current]. discriminate.
 Qed.
 
